@@ -233,6 +233,90 @@ def verify_is_optional(pid, n, fn):
                     "the result is not `is_union(typ) and typ has two arguments and one of them resolves to NoneType`", native_witness_opt)
 
 
+RESOLVED_SRC = '''
+from dataclasses import dataclass, field
+from datetime import date
+from decimal import Decimal
+from typing import Dict, Generic, List, Optional, Tuple, TypeVar, Union
+from mashumaro import DataClassDictMixin
+
+T = TypeVar("T")
+
+@dataclass
+class Inner(DataClassDictMixin):
+    a: int
+
+@dataclass
+class Base(DataClassDictMixin, Generic[T]):
+    f1: Union[T, Inner]
+    f2: Union[T, date]
+    f3: Union[T, List[int]]
+    f4: Union[date, T]
+    f5: Union[Dict[str, date], T]
+    f6: Union[T, Tuple[date, int]]
+    f7: Union[T, Decimal]
+    f8: Union[T, int]
+
+@dataclass
+class Spec(Base[None]):
+    pass
+
+@dataclass
+class Mid(Base[T], Generic[T]):
+    pass
+
+@dataclass
+class Spec2(Mid[None]):
+    pass
+
+@dataclass
+class Plain(DataClassDictMixin):
+    f1: Optional[Inner]
+    f2: Optional[date]
+    f3: Optional[List[int]]
+    f4: Optional[date]
+    f5: Optional[Dict[str, date]]
+    f6: Optional[Tuple[date, int]]
+    f7: Optional[Decimal]
+    f8: Optional[int]
+
+FULL = dict(f1=Inner(1), f2=date(2020, 1, 2), f3=[1, 2], f4=date(2021, 3, 4), f5={"k": date(2022, 5, 6)}, f6=(date(2023, 7, 8), 9), f7=Decimal("1.5"), f8=3)
+'''
+
+
+def verify_resolved_optional(pid):
+    """S19 at its call sites (bounded, labelled so): a field `Union[T, X]` of a generic dataclass specialised with
+    T = None IS `Optional[X]`; the builder decides nullability with is_optional(typ, resolved params).  For
+    every field of the family and every choice of which single field is None (and all / none of them), the
+    specialised class encodes and decodes exactly as the class that writes Optional[X] out."""
+    from . import build
+
+    oid = f"{pid}.S19[is_optional]/resolved-optional{{bounded}}"
+    unit = "builder.py:_get_field_packer / _get_field_unpacker -> is_optional (bounded: family of 8 fields x 2 specialisations x 10 instances)"
+    try:
+        mod, _ = build.build_module(RESOLVED_SRC)
+    except Exception as e:  # noqa
+        return [dict(id=oid, status="refuted", unit=unit, detail=f"building the family raised {type(e).__name__}: {e}", bounded=True,
+                     witness={"confirmed": True, "input": "class creation", "why": f"{type(e).__name__}: {e}", "source": RESOLVED_SRC})]
+    names = sorted(mod.FULL)
+    insts = [dict(mod.FULL)] + [dict(mod.FULL, **{n: None}) for n in names] + [{n: None for n in names}]
+    n, w = 0, None
+    for cls in (mod.Spec, mod.Spec2):
+        for kw in insts:
+            n += 1
+            want = mod.Plain(**kw).to_dict()
+            for what, f in (("to_dict", lambda: cls(**kw).to_dict()), ("from_dict", lambda: cls.from_dict(want).to_dict())):
+                try:
+                    got = f()
+                    p = None if got == want else f"{cls.__name__}(...).{what}: got {got!r}, the class with Optional[X] written out gives {want!r}"
+                except Exception as e:  # noqa
+                    p = f"{cls.__name__} {what} raised {type(e).__name__}: {e}; the class with Optional[X] written out gives {want!r}"
+                if p and w is None:
+                    none = [k for k in names if kw[k] is None]
+                    w = {"confirmed": True, "input": f"{cls.__name__}(**FULL with {none} set to None).{what}", "why": p[:500], "source": RESOLVED_SRC}
+    return [dict(id=oid, status="refuted" if w else "proved", unit=unit, detail=(w or {}).get("why", ""), witness=w, bounded=True)]
+
+
 def all_obligations(pid, path=HELPERS):
     fn = _fn(path)
     if fn is None:
@@ -246,6 +330,7 @@ def all_obligations(pid, path=HELPERS):
         n2, w2 = native_witness_opt()
         obs.append(dict(id=f"{pid}.S19[is_optional]/native{{bounded}}", status="refuted" if w2 else "proved", unit=UNIT_OPT + f" (bounded: {n2} concrete calls)",
                         detail=(w2 or {}).get("why", ""), witness=w2, bounded=True))
+        obs += verify_resolved_optional(pid)
     n, w = native_witness()
     obs.append(dict(id=f"{pid}.S18[not_none_type_arg]/native{{bounded}}", status="refuted" if w else "proved", unit=UNIT + f" (bounded: {n} concrete calls)",
                     detail=(w or {}).get("why", ""), witness=w, bounded=True))
